@@ -397,6 +397,7 @@ def norm(t):
 
 def run(ctx, w):
     _run(ctx, w)
+    shared.mode_rule(ctx, w, shared.screen(w), shared.roles(w), "Y14")       # DECAWM / IRM touch only their flag (a pending wrap survives them)
     # the commands of this property must first of all be DECODED as specified (selector values, parameter slots, finals)
     from rules import c03
     shared.embed(ctx, w, c03.dispatch_rules)
